@@ -96,7 +96,7 @@ fn props() -> Vec<PropDef> {
         num: 4,
         level: "exploration",
         run: props::c04::run,
-        quick_runs: 200_000,
+        quick_runs: 500_000,
         thorough_runs: 6_000_000,
         rule: "one case = (generated problem, settings, solve history, clock profile) drawn from the seeded choice stream, executed twice (frozen-clock reference, clock under test); non-trivial = the time limit was certainly exceeded (T_lo > limit) at an iteration boundary of at least one solve; distinct = distinct hash of the run's (thread, event kind, fault/delta class) sequence",
         assumptions: &[
@@ -110,7 +110,7 @@ fn props() -> Vec<PropDef> {
         num: 3,
         level: "exploration",
         run: props::c03::run,
-        quick_runs: 150_000,
+        quick_runs: 400_000,
         thorough_runs: 6_000_000,
         rule: "one case = (generated problem, settings, history of 1-3 solves each cut by the simulated clock at a chosen clock read and/or by max_iter at a chosen iteration); non-trivial = at least one solve ended in a status other than Solved/PrimalInfeasible/DualInfeasible (MaxTime, MaxIterations, Almost*, InsufficientProgress, NumericalError); distinct = distinct hash of the run's event-shape sequence",
         assumptions: &[
@@ -123,7 +123,7 @@ fn props() -> Vec<PropDef> {
         num: 20,
         level: "exploration",
         run: props::c20::run,
-        quick_runs: 40_000,
+        quick_runs: 100_000,
         thorough_runs: 2_000_000,
         rule: "one case = (generated problem incl. infinite bounds, settings, history of 1-2 solves cut by clock/max_iter) executed once per print target (buffer = reference R4, stream with seeded short writes/EINTR, file, sink, stream with a hard fault at a chosen call) under a clock that is a pure function of the read index; non-trivial = verbose on and at least one short-write or EINTR rate non-zero; distinct = distinct hash of the run's event-shape sequence (thread, event kind, sink outcome kind)",
         assumptions: &[
@@ -136,7 +136,7 @@ fn props() -> Vec<PropDef> {
         num: 9,
         level: "exploration",
         run: props::c09::run,
-        quick_runs: 24_000,
+        quick_runs: 60_000,
         thorough_runs: 500_000,
         rule: "one case = (1-2 generated problems with right-hand sides planted at/above several candidate bounds, settings, and either a sequential history of set_infinity/default_infinity around New/solve/re-solve or 2-4 simulated threads in which setter threads store to the bound while solver threads construct and solve); non-trivial = some row was dropped or capped, or a store landed between invoke and return of a construction; distinct = distinct hash of the (thread, event kind) sequence, i.e. distinct interleavings",
         assumptions: &[
@@ -149,7 +149,7 @@ fn props() -> Vec<PropDef> {
         num: 5,
         level: "exploration",
         run: props::c05::run,
-        quick_runs: 16_000,
+        quick_runs: 40_000,
         thorough_runs: 300_000,
         rule: "one case = either (a) 2-3 solver programs (New, solve, update_q/b, re-solve, with max_iter/time cuts and optional faulty print streams) on simulated threads plus 0-1 threads storing to the infinity bound, scheduled by the seeded baton at every seam call and compared bit for bit with each program run alone, or (b) one solver solved twice and solved after 1-2 interrupted solves, compared bit for bit with an uninterrupted first solve; non-trivial = (a) at least one scheduler hand-off happened inside a solve(), (b) always; distinct = distinct hash of the (thread, event kind) sequence = distinct interleavings",
         assumptions: &[
@@ -162,7 +162,7 @@ fn props() -> Vec<PropDef> {
         num: 19,
         level: "fault_enumeration",
         run: props::c19::run,
-        quick_runs: 8_000,
+        quick_runs: 12_000,
         thorough_runs: 1_600,
         rule: "one case = one generated problem+settings saved to a real file, then (a) the fault-free round trip (stored data vs originals, settings, load with override, solve of the loaded problem), (b) descriptor faults (/dev/full, read-only, write-only, directory, handle not rewound, stale tail, pipe with 1-7 byte reads), (c) disk faults applied to the stored bytes: quick = lost write + 24 truncations + 40 bit flips + 40 hostile-byte substitutions + sector zeroing + duplicated tail; thorough = every truncation offset and every bit of every byte of the file, plus one substitution per byte; every case is non-trivial (a real file is written, faulted and loaded); distinct = distinct hash of the run's event-shape sequence",
         assumptions: &[
@@ -175,7 +175,7 @@ fn props() -> Vec<PropDef> {
         num: 8,
         level: "exploration",
         run: props::c08::run,
-        quick_runs: 100_000,
+        quick_runs: 300_000,
         thorough_runs: 3_000_000,
         rule: "one case = (generated problem, settings, history of 2-12 operations: update_P/q/A/b/update_data in every argument form, valid or invalid (wrong length, out-of-range index after valid ones, pattern mismatch, presolve active), and solves cut by max_iter or the simulated clock); non-trivial = a solve follows an accepted non-empty update, or an update was rejected; distinct = distinct hash of the run's event-shape sequence",
         assumptions: &[
